@@ -30,6 +30,10 @@ RST = ['*em*', '**strong**', '``lit``', '`ref`', '`text <http://x>`_', '`text <a
        '| line\n| block', '\\', '\\*', '*', '**', '`', '``', '|', '_', '__', 'a_b_', '.. ', '..', '.. |s| replace:: t', '.. class:: c', '.. role:: r', '.. default-role:: emphasis',
        '.. target-notes::', '.. sectnum::', '.. header:: h', '.. csv-table::\n   :header: a\n\n   1', '.. list-table::\n\n   * - x', '.. parsed-literal::\n\n  *x*', '.. py:function:: f', '.. date::']
 RST += DUPHEAD
+# type specifications with an opening quote that is never closed, followed by a long tail (tokenisers of type fields)
+_TAIL = 'one of the many possible values that nobody ever closed the quote of'
+EPY += [f'@type a: "{_TAIL}', f"@rtype: '{_TAIL}", f'@type a: list of "{_TAIL} or C{{int}}']
+RST += [f':type a: "{_TAIL}', f":rtype: '{_TAIL}"]
 GOOGLE = ['Args:\n    a: d', 'Args:\n    a (int): d\n    b (str, optional): e', 'Arguments:\n  *args: x\n  **kw: y', 'Returns:\n    r', 'Returns:\n    int: r', 'Yields:\n    y',
           'Raises:\n    E: e', 'Raise:\n    E', 'Attributes:\n    v (int): d', 'Note:\n    n', 'Notes:\n  n', 'Example:\n    >>> 1', 'Examples:\n    x::\n\n        lit', 'See Also:\n    a, b',
           'Todo:\n    t', 'Warning:\n    w', 'Warns:\n    W: w', 'Keyword Args:\n    k: d', 'Other Parameters:\n    o: d', 'Methods:\n    m: d', 'References:\n    r', 'Args:', 'Args:\n',
@@ -42,6 +46,8 @@ UNI = ['\x00', '\x01', '\x0b', '\x0c', '\x1b', '\x7f', '\x85', '\u2028', '\u2029
        '<', '>', '&', '"', "'", '&amp;', '<b>', ']]>', '<!--', '%s', '{0}', '\\', '\\n', '\\x41', '\\u1234', '$', '#', '~', '^']
 WORDS = ['word', 'Some text here.', 'A sentence, with punctuation: yes!', 'x', 'self', 'None', 'int', 'list of str', 'foo.bar.Baz', 'http://example.com/a?b=c&d=e', 'a = 1', '1. not a list',
          'end.', 'The quick brown fox', 'param', 'return']
+GOOGLE += [f'Args:\n    a (str, one of "{_TAIL}): d', f"Returns:\n    '{_TAIL}: r", f'Args:\n    a ("x\\" {_TAIL}, optional): d']
+NUMPY += [f'Parameters\n----------\na : "{_TAIL}\n    d', f"Returns\n-------\n'{_TAIL}\n    r", f'Parameters\n----------\na : {{"x", "{_TAIL}}}\n    d']
 ALL = EPY + RST + GOOGLE + NUMPY + UNI + WORDS
 
 
